@@ -19,6 +19,7 @@ Inductive obs := ObsOk (t : list enode) | ObsErr | ObsPanic.
 
 Inductive case :=
 | CPair (tk : nat) (a b : modset) (oa ob : obs)
+| CChain (steps : list (nat * modset * obs))     (* a, T1 a, T2 (T1 a), ... each with its dump *)
 | CIndep (a b : modset) (path : list text) (oa ob : obs).
 
 Definition trees_eqb (x y : list enode) : bool := list_eqb enode_eqb x y.
@@ -119,8 +120,27 @@ Definition known_of (a b : modset) : option nat :=
   else if kf_aug_when a || kf_aug_when b then Some 2%nat
   else None.
 
+Fixpoint chain_spec (prev : option obs) (steps : list (nat * modset * obs)) : bool :=
+  match steps with
+  | [] => true
+  | (_, ms, o) :: tl =>
+      match prev with Some p => obs_eqb p o | None => true end &&
+      (negb (plain_ms ms) || obs_eqb (direct_read ms) o) &&
+      chain_spec (Some o) tl
+  end.
+
+Fixpoint chain_known (steps : list (nat * modset * obs)) : option nat :=
+  match steps with
+  | [] => None
+  | (_, ms, _) :: tl =>
+      match known_of ms ms with Some k => Some k | None => chain_known tl end
+  end.
+
 Definition classify (c : case) : verdict :=
   match c with
+  | CChain steps =>
+      let corr := forallb (fun s => model_obs_eqb (compile_modset default_fuel (snd (fst s))) (snd s)) steps in
+      classify_gen corr (chain_spec None steps) (chain_known steps)
   | CPair _ a b oa ob =>
       let corr := model_obs_eqb (compile_modset default_fuel a) oa &&
                   model_obs_eqb (compile_modset default_fuel b) ob in
